@@ -67,6 +67,25 @@ def build_programs(R, rng, tier):
                 progs.append({"src": src, "include": ["B001"], "kind": "import", "rule": r["id"],
                               "level": r.get("level", "MEDIUM"), "q": m, "spelling": sname, "ctx": wrap,
                               "line": line, "expect": True})
+    # ---- import statements laid out over several lines: reported on the line where the statement starts
+    for r in bl["Import"]:
+        mods = r["qualnames"] if tier != "quick" else rng.sample(r["qualnames"], min(2, len(r["qualnames"])))
+        for m in mods:
+            variants = [("from_m_import_paren", ["from %s import (" % m, "    zz_x,", "    zz_y,", ")"]),
+                        ("import_backslash", ["import zz_first, \\", "    %s" % m]),
+                        ("import_as_backslash", ["import \\", "    %s \\", "    as zz_a" % ()]) if False else
+                        ("import_paren_like", ["import zz_first, zz_second, \\", "    zz_third, \\", "    %s" % m])]
+            if "." in m:
+                pkg, last = m.rsplit(".", 1)
+                variants.append(("from_p_import_m_paren_last", ["from %s import (zz_other," % pkg, "    zz_more,", "    %s)" % last]))
+                variants.append(("from_p_import_m_as_paren", ["from %s import (", "    %s as zz_a,", ")"]))
+                variants[-1] = ("from_p_import_m_as_paren", ["from %s import (" % pkg, "    %s as zz_a," % last, ")"])
+            for sname, lines in variants:
+                pre = rng.choice([[], ["zz_before = 1"], ["# comment", ""]])
+                src = "\n".join(pre + lines) + "\n"
+                progs.append({"src": src, "include": ["B001"], "kind": "import", "rule": r["id"],
+                              "level": r.get("level", "MEDIUM"), "q": m, "spelling": sname, "ctx": "multiline",
+                              "line": len(pre) + 1, "expect": True})
     # ---- near misses
     pool = call_rules if tier != "quick" else rng.sample(call_rules, 60)
     for r, q in pool:
